@@ -7,6 +7,7 @@ import (
 	"fmt"
 	"go/token"
 	"go/types"
+	"regexp"
 	"strings"
 
 	"golang.org/x/tools/go/ssa"
@@ -121,6 +122,68 @@ func (kr *kindRules) add(rule string, f *ssa.Function, sub, pos string, st Statu
 	kr.Findings = append(kr.Findings, finding{rule, f, sub, pos, st, detail})
 }
 
+// floatText: the text of a grid index (or zoom) inside an ID is the decimal integer;
+// a floating-point verb / strconv.FormatFloat prints IEEE negative zero as "-0" (and
+// %v, %g, %e switch to exponent form from 1e21 / 2^21 on), so the same voxel gets a
+// second spelling that string-based sets and comparisons treat as another voxel.
+var fmtVerb = regexp.MustCompile(`%[-+# 0-9.]*[a-zA-Z]`)
+
+func (kr *kindRules) floatText(w *World, f *ssa.Function, x *ssa.Call, pos string, ord map[string]int) {
+	idx := ks(kX, kY, kF, kTZ, kHZ, kVZ, kZ, kTVZ)
+	isFloat := func(v ssa.Value) bool {
+		b, ok := v.Type().Underlying().(*types.Basic)
+		return ok && b.Info()&types.IsFloat != 0
+	}
+	definitely := func(v ssa.Value) KindSet {
+		a := kr.ke.Eval(v)
+		if a == nil || a.Scalar == 0 {
+			return 0
+		}
+		if a.Scalar&^idx == 0 {
+			return a.Scalar
+		}
+		// a floored position is the index of its axis
+		if c, ok := resolve(v).(*ssa.Call); ok && calleeIs(c, "math", "Floor") && a.Scalar&^ks(kLON, kLAT, kALT) == 0 {
+			return a.Scalar
+		}
+		return 0
+	}
+	if calleeIs(x, "strconv", "FormatFloat") && len(x.Call.Args) == 4 {
+		if k := definitely(x.Call.Args[0]); k != 0 {
+			ord["floattext"]++
+			kr.add("KIND-LAYOUT", f, fmt.Sprintf("float text #%d", ord["floattext"]), pos, Violated, "a value of kind "+k.String()+" is written with strconv.FormatFloat: negative zero prints as \"-0\", a second spelling of index 0 -- "+shortInstr(x))
+		}
+		return
+	}
+	if !calleeIs(x, "fmt", "Sprintf") || len(x.Call.Args) != 2 {
+		return
+	}
+	args := x.Call.Args
+	// only ID-shaped formats: verbs separated by the ID separator, no other text
+	// (messages may print whatever they like)
+	format, okf := constString(args[0])
+	if !okf || strings.Trim(fmtVerb.ReplaceAllString(format, ""), "/_") != "" {
+		return
+	}
+	vals, ok := sliceLiteral(args[len(args)-1])
+	if !ok {
+		return
+	}
+	for _, v := range vals {
+		if mi, isMI := v.(*ssa.MakeInterface); isMI {
+			v = mi.X
+		}
+		if !isFloat(v) {
+			continue
+		}
+		if k := definitely(v); k != 0 {
+			ord["floattext"]++
+			kr.add("KIND-LAYOUT", f, fmt.Sprintf("float text #%d", ord["floattext"]), pos, Violated, "a floating-point value of kind "+k.String()+" is formatted by "+calleeOf(x).Name()+": whatever the verb, IEEE negative zero prints as \"-0\" (and %v/%g/%e use exponents for large values), a second spelling of the same index -- "+shortInstr(x))
+			return
+		}
+	}
+}
+
 func calleeDisplay(w *World, g *ssa.Function) string {
 	if o := g.Origin(); o != nil {
 		g = o
@@ -147,6 +210,8 @@ func (kr *kindRules) scan(w *World, f *ssa.Function) {
 					}
 				}
 			}
+			// FLOATTEXT: an index written into ID text with a floating-point verb
+			kr.floatText(w, f, x, pos, callOrd)
 			// CUTSET: strings.Trim/TrimLeft/TrimRight take a SET of characters; handing them a
 			// piece of ID text (digits, separator) strips digits of the neighbouring field
 			if calleeIs(x, "strings", "TrimLeft") || calleeIs(x, "strings", "TrimRight") || calleeIs(x, "strings", "Trim") {
@@ -349,6 +414,13 @@ func (kr *kindRules) roundBinOp(w *World, f *ssa.Function, x *ssa.BinOp, pos str
 		}
 		k := kr.vkinds(x.X)
 		if k == 0 {
+			// a helper shared between the axes: no verdict on the bare division, but a sign
+			// correction that ignores the remainder (q-- whenever the dividend is negative) is
+			// wrong for every exact multiple as soon as a signed vertical value can reach it
+			if a := kr.ke.Eval(x.X); a != nil && a.Scalar&vfam != 0 && signOnlyFloorFix(f, x) {
+				ord["quo"]++
+				kr.add("ROUND", f, fmt.Sprintf("integer division #%d of a %s value", ord["quo"], a.Scalar&vfam), pos, Violated, "the quotient is lowered by one whenever the dividend is negative, without looking at the remainder: exact multiples (-4/2) come out one too low ("+shortInstr(x)+")")
+			}
 			return
 		}
 		ord["quo"]++
@@ -372,11 +444,87 @@ func (kr *kindRules) roundBinOp(w *World, f *ssa.Function, x *ssa.BinOp, pos str
 		}
 	case token.REM:
 		// x % d on signed vertical values used as a quotient complement is fine
+		kr.remSign(w, f, x, pos, ord)
+	case token.SUB:
+		// BITFILL: (b<<d | 1<<d) - 1 -- what `b<<d | 1<<d - 1` means in Go, where | and -
+		// share one precedence level.  For odd b bit d is already set and the value is
+		// b<<d - 1, below the first sub-cell instead of the last one.
+		if c, ok := constInt(x.Y); !ok || c != 1 {
+			return
+		}
+		or, ok := resolve(x.X).(*ssa.BinOp)
+		if !ok || or.Op != token.OR {
+			return
+		}
+		for _, pair := range [][2]ssa.Value{{or.X, or.Y}, {or.Y, or.X}} {
+			one, ok1 := resolve(pair[0]).(*ssa.BinOp)
+			base, ok2 := resolve(pair[1]).(*ssa.BinOp)
+			if !ok1 || !ok2 || one.Op != token.SHL || base.Op != token.SHL {
+				continue
+			}
+			if c, ok := constInt(one.X); !ok || c != 1 {
+				continue
+			}
+			if !equivValue(stripConv(one.Y), stripConv(base.Y)) {
+				continue
+			}
+			ord["bitfill"]++
+			kr.add("ROUND", f, fmt.Sprintf("bit fill #%d", ord["bitfill"]), pos, Violated, "(b<<d | 1<<d) - 1 is not the last sub-cell b<<d | (1<<d - 1): | and - have the same precedence in Go, and for odd b the result is b<<d - 1 -- "+shortInstr(x))
+			return
+		}
 	}
 }
 
 // floorDivIdiom: q = x / d is accompanied by r = x % d on the same operands
 // and a phi/merge selecting between q and q-1.
+// signOnlyFloorFix: q = a / b; a phi chooses between q and q-1; some branch
+// tests a against 0; and a % b is never computed.
+func signOnlyFloorFix(f *ssa.Function, q *ssa.BinOp) bool {
+	if q.Referrers() == nil {
+		return false
+	}
+	cond := false
+	for _, r := range *q.Referrers() {
+		b, ok := r.(*ssa.BinOp)
+		if !ok || b.Op != token.SUB || b.X != ssa.Value(q) || b.Referrers() == nil {
+			continue
+		}
+		if c, ok := constInt(b.Y); !ok || c != 1 {
+			continue
+		}
+		for _, r2 := range *b.Referrers() {
+			if p, ok := r2.(*ssa.Phi); ok {
+				for _, e := range p.Edges {
+					if e == ssa.Value(q) {
+						cond = true
+					}
+				}
+			}
+		}
+	}
+	if !cond {
+		return false
+	}
+	signTest, rem := false, false
+	instrs(f, func(in ssa.Instruction) {
+		b, ok := in.(*ssa.BinOp)
+		if !ok {
+			return
+		}
+		switch b.Op {
+		case token.REM:
+			if sameValue(b.X, q.X) {
+				rem = true
+			}
+		case token.LSS, token.GEQ, token.GTR, token.LEQ:
+			if c, ok := constInt(b.Y); ok && c == 0 && sameValue(b.X, q.X) {
+				signTest = true
+			}
+		}
+	})
+	return signTest && !rem
+}
+
 func floorDivIdiom(f *ssa.Function, q *ssa.BinOp) bool {
 	hasRem := false
 	instrs(f, func(in ssa.Instruction) {
@@ -754,3 +902,116 @@ func unresolvedSeeds(w *World, r *Report) {
 }
 
 var _ = strings.Contains
+
+// remSign: Go's % keeps the sign of the dividend.  A horizontal index that is
+// moved by a possibly negative amount and then reduced with % leaves the grid
+// on the low side (-1 % n == -1) unless the negative remainder is corrected.
+func (kr *kindRules) remSign(w *World, f *ssa.Function, x *ssa.BinOp, pos string, ord map[string]int) {
+	if !isIntType(x.Type()) || !isSignedInt(x.Type()) {
+		return
+	}
+	a := kr.ke.Eval(x)
+	if a == nil || a.Scalar == 0 || a.Scalar&^ks(kX, kY) != 0 {
+		return
+	}
+	isIndex := func(v ssa.Value) bool {
+		b := kr.ke.Eval(v)
+		return b != nil && b.Scalar != 0 && b.Scalar&^ks(kX, kY) == 0
+	}
+	var mayNeg func(v ssa.Value, depth int) bool
+	mayNeg = func(v ssa.Value, depth int) bool {
+		if depth > 4 {
+			return false
+		}
+		v = resolve(v)
+		if c, ok := constInt(v); ok {
+			return c < 0
+		}
+		switch y := v.(type) {
+		case *ssa.UnOp:
+			if y.Op == token.SUB {
+				return true
+			}
+		case *ssa.Phi:
+			for _, e := range y.Edges {
+				if mayNeg(e, depth+1) {
+					return true
+				}
+			}
+		case *ssa.Parameter:
+			if b := kr.ke.Eval(y); b != nil && b.Scalar != 0 && b.Scalar&^ks(kDX, kDY) == 0 {
+				return true // a signed shift by documentation
+			}
+		case *ssa.BinOp:
+			if y.Op == token.SUB {
+				if c, ok := constInt(y.X); ok && c == 0 {
+					return true
+				}
+			}
+		}
+		return false
+	}
+	// the dividend: index - positive constant, or index + possibly negative amount
+	d, ok := resolve(x.X).(*ssa.BinOp)
+	if !ok {
+		return
+	}
+	modulus := x.Y
+	neg := false
+	switch d.Op {
+	case token.SUB:
+		if c, ok := constInt(d.Y); ok && c > 0 && isIndex(d.X) {
+			neg = true
+		}
+	case token.ADD:
+		for _, pr := range [][2]ssa.Value{{d.X, d.Y}, {d.Y, d.X}} {
+			if isIndex(pr[0]) && mayNeg(pr[1], 0) {
+				neg = true
+			}
+		}
+		// (x + s + n) % n: the modulus is added before reducing
+		for _, op := range []ssa.Value{d.X, d.Y} {
+			if equivValue(op, modulus) {
+				return
+			}
+			if in, ok := resolve(op).(*ssa.BinOp); ok && in.Op == token.ADD && (equivValue(in.X, modulus) || equivValue(in.Y, modulus)) {
+				return
+			}
+		}
+	}
+	if !neg {
+		return
+	}
+	// corrected afterwards?  r < 0 test, or (r + n) % n
+	if x.Referrers() != nil {
+		for _, ref := range *x.Referrers() {
+			switch y := ref.(type) {
+			case *ssa.BinOp:
+				switch y.Op {
+				case token.LSS, token.GEQ, token.LEQ, token.GTR:
+					return
+				case token.ADD:
+					if equivValue(y.X, modulus) || equivValue(y.Y, modulus) {
+						return
+					}
+				}
+			case *ssa.Phi:
+				return // carried on: a later correction cannot be excluded
+			case *ssa.Store:
+				if _, isVar := y.Addr.(*ssa.Alloc); isVar {
+					return
+				}
+			case *ssa.Call:
+				if bn := builtinName(y); bn == "max" || bn == "min" {
+					return
+				}
+				// handed to a helper of the module (not a plain setter): it may correct the sign
+				if g := calleeOf(y); g != nil && w.InModule(g) && !isSetter(w, g) {
+					return
+				}
+			}
+		}
+	}
+	ord["rem"]++
+	kr.add("REM-SIGN", f, fmt.Sprintf("remainder #%d of a moved %s index", ord["rem"], a.Scalar), pos, Violated, "the index is moved by an amount that can be negative and reduced with %: Go's remainder keeps the sign of the dividend (-1 % n == -1), so the result leaves the grid on the low side instead of wrapping to n-1 -- "+shortInstr(x))
+}
